@@ -234,6 +234,12 @@ def uncheckedScopes (t : String) (mm : MM) : List Scope :=
             { kind := "literals", owner := e.name,
               ents := e.literals.map fun l => { fn := t ++ ".enum_literal_name", ident := l }, reported := false }
         else [])
+    -- Java: the check compares `property_name`s, the generated members are `get…`/`set…` (`getter_name`)
+    ++ (if t = "java" then
+          mm.classes.map fun c =>
+            { kind := "accessors", owner := c.name,
+              ents := c.props.map fun p => { fn := "java.getter_name", ident := p }, reported := false }
+        else [])
     -- names derived from the structure names with a *coarser* conversion than the structure name itself
     ++ (if t = "python" then
           -- `<name>_from_jsonable`, `visit_<name>`, … (lower snake) while class names keep abbreviations
